@@ -364,6 +364,27 @@ def define_namespace_step(ns, arg, env, lineno=None):
     return new
 
 
+def define_step_compares_unexpanded(ns, arg, env, lineno=None):
+    """NOT the specification: the behaviour of the known defect
+    `C05:redefine-compares-unexpanded` (the guard compares the stored expanded
+    value with the new value text before expansion).  Used by stand-ins only
+    to label a discrepancy that is exactly this behaviour."""
+    name, raw = split_define(arg)
+    key = name.lower()
+    if key in ns and ns[key] != raw:
+        raise RefSyntax(lineno, "redefinition (unexpanded comparison)")
+    if not isname(name):
+        raise RefSyntax(lineno, "illegal define name")
+    try:
+        value = subst(raw, ns, env)
+    except RefError as e:
+        e.lineno = lineno
+        raise
+    new = dict(ns)
+    new[key] = value
+    return new
+
+
 # --------------------------------------------------------------------------
 # events: what a parse delivers to its context (C03 observation point b)
 
@@ -376,11 +397,12 @@ class Events:
         self.defines = {}
 
 
-def parse_events(text, env=None, ev=None):
+def parse_events(text, env=None, ev=None, define_step=None):
     """Interpret `text` as one resource; %include is recorded, not followed.
 
     Returns Events; on rejection raises a RefError carrying `.events` (the
-    trace delivered before the rejection).
+    trace delivered before the rejection).  `define_step` replaces
+    define_namespace_step (triage of discrepancies only).
     """
     if env is None:
         env = {}
@@ -424,8 +446,8 @@ def parse_events(text, env=None, ev=None):
             else:
                 word, arg = k[1], k[2]
                 if word == "define":
-                    ev.defines = define_namespace_step(ev.defines, arg, env,
-                                                       lineno)
+                    ev.defines = (define_step or define_namespace_step)(
+                        ev.defines, arg, env, lineno)
                 elif word == "import":
                     ev.trace.append(("import", _subst_at(
                         strip_ws(arg), ev.defines, env, lineno)))
@@ -516,13 +538,20 @@ def parse_schemaless(text, env=None):
 # --------------------------------------------------------------------------
 # C05: defines across included resources
 
-def run_defines(lines_by_resource, main, env=None):
+def run_defines(lines_by_resource, main, env=None, on_define=None,
+                define_step=None):
     """Interpret resource `main` (a list of lines) with `%include NAME`
     resolved in `lines_by_resource`.
 
+    `on_define(resource, lineno, name, rawvalue, namespace_before)` is called
+    for every %define line reached, and `define_step` replaces
+    define_namespace_step (both for triage of discrepancies only: a stand-in
+    may ask "is the observed behaviour the one of defect model X?").
+
     One namespace per call, shared with every included resource.  Returns
-    ('ok', {key: [values]}, namespace) or ('error', tags, resource, lineno)
-    where tags is the tuple of acceptable rejection tags.
+    ('ok', {key: [values]}, namespace) or ('error', tags, resource, lineno,
+    why) where tags is the tuple of acceptable rejection tags and why a short
+    description of the first applicable rule.
     Only top-level keys, defines and includes are interpreted; section lines
     are handled per C03 (an included resource must balance its own sections).
     """
@@ -557,8 +586,11 @@ def run_defines(lines_by_resource, main, env=None):
                         raise RefSyntax(lineno, "closer")
                     stack.pop()
                 elif k[1] == "define":
-                    state["ns"] = define_namespace_step(state["ns"], k[2],
-                                                        env, lineno)
+                    if on_define is not None:
+                        nm, raw = split_define(k[2])
+                        on_define(res, lineno, nm, raw, state["ns"])
+                    state["ns"] = (define_step or define_namespace_step)(
+                        state["ns"], k[2], env, lineno)
                 elif k[1] == "include":
                     target = subst(strip_ws(k[2]), state["ns"], env)
                     if target not in lines_by_resource:
@@ -567,13 +599,15 @@ def run_defines(lines_by_resource, main, env=None):
                 else:
                     subst(strip_ws(k[2]), state["ns"], env)
             except RefError as e:
-                raise Stop(e.tags(), res, lineno)
+                raise Stop(e.tags(), res, lineno,
+                           getattr(e, "why", "") or e.tag)
         if stack:
-            raise Stop(("syntax",), res, lineno)
+            raise Stop(("syntax",), res, lineno, "unclosed section")
 
     try:
         run(main, 0)
     except Stop as e:
-        tags, res, lineno = e.args
-        return ("error", tuple(tags), res, lineno)
+        tags, res, lineno = e.args[:3]
+        why = e.args[3] if len(e.args) > 3 else tags[0]
+        return ("error", tuple(tags), res, lineno, why)
     return ("ok", state["keys"], state["ns"])
